@@ -93,6 +93,15 @@ func init() {
 		e.assert(st, c, label, pos)
 		return nil
 	}
+	intrinsics[vrtPkg+".Bounded"] = func(e *Engine, st *State, th *Thread, args []Value, pos token.Pos) Value {
+		st.boundLabel = e.mustConstString(st, args[0])
+		st.boundDeadline = st.steps + e.concInt(st, args[1].(*Term))
+		return nil
+	}
+	intrinsics[vrtPkg+".BoundedEnd"] = func(e *Engine, st *State, th *Thread, args []Value, pos token.Pos) Value {
+		st.boundLabel = ""
+		return nil
+	}
 	intrinsics[vrtPkg+".Cover"] = func(e *Engine, st *State, th *Thread, args []Value, pos token.Pos) Value {
 		label := e.mustConstString(st, args[0])
 		e.cover(st, label)
